@@ -34,6 +34,7 @@ type Key struct {
 	Type  string
 	Index int
 	Nonce string // base64url nonce placed in the JWK ("" = none)
+	N, E  string // members of another key type (RSA) placed beside the key's own ("" = none): members like any other
 	Ed    ed25519.PrivateKey
 	EC    *ecdsa.PrivateKey
 }
@@ -86,6 +87,9 @@ func New(t string, idx int) *Key {
 
 func (k *Key) WithNonce(n string) *Key { c := *k; c.Nonce = n; return &c }
 
+// WithNE is the same key whose JWK also carries n and e members.
+func (k *Key) WithNE(n, e string) *Key { c := *k; c.N, c.E = n, e; return &c }
+
 func (k *Key) Alg() string { return Algs[k.Type] }
 
 func (k *Key) Public() any {
@@ -116,7 +120,7 @@ func (k *Key) XY() ([]byte, []byte) {
 // JWK is the library's public JWK model for the key, assembled by hand.
 func (k *Key) JWK() *jws.JWK {
 	x, y := k.XY()
-	j := &jws.JWK{Nonce: k.Nonce}
+	j := &jws.JWK{Nonce: k.Nonce, N: k.N, E: k.E}
 	if k.Ed != nil {
 		j.Kty, j.Crv, j.X = "OKP", "Ed25519", b64(x)
 		return j
@@ -132,6 +136,12 @@ func (k *Key) JWKMap() map[string]any {
 	m := map[string]any{"kty": j.Kty, "crv": j.Crv, "x": j.X, "y": j.Y}
 	if j.Nonce != "" {
 		m["nonce"] = j.Nonce
+	}
+	if j.N != "" {
+		m["n"] = j.N
+	}
+	if j.E != "" {
+		m["e"] = j.E
 	}
 	return m
 }
